@@ -155,7 +155,9 @@ pub fn step(w: &mut World, e: &Value) -> Value {
 		"cancel" => {
 			let id = e["id"].as_i64().filter(|x| *x >= 0).map(|x| x as u32);
 			let by = e["by"].as_str().filter(|s| !s.is_empty());
-			w.cancel(&wn, id, by)
+			let mut r = w.cancel(&wn, id, by);
+			r["raw"] = json!(e["raw"].as_bool().unwrap_or(false));
+			r
 		}
 		"create_account" => w.create_account(&wn, e["label"].as_str().unwrap_or("acct")),
 		"set_active" => w.set_active(&wn, e["label"].as_str().unwrap_or("default")),
@@ -243,7 +245,9 @@ pub fn run_behaviour(dir: &str, setup: &Value, beh: &[Value], bid: usize) -> Vec
 	let obs = w.obs();
 	out.push(json!({"ev": "reset", "b": bid, "setup": setup, "res": "ok", "obs": obs}).to_string());
 	for e in beh {
-		if e["ev"] == "cancel" {
+		if e["ev"] == "cancel" && !e["raw"].as_bool().unwrap_or(false) {
+			// (raw: the cancel is called as an API user calls it, with NO refresh of ours before it - what the
+			// wallet's own refresh inside cancel_tx finds is then part of the step)
 			// owner::cancel_tx refreshes first; make that refresh observable on its own so
 			// that the rollback can be judged against the state right before the cancel batch
 			let wn = e["w"].as_str().unwrap_or("w1").to_string();
